@@ -28,7 +28,29 @@ LOOP = '''
 '''
 
 
+def _counter_spelling():
+    """The attempt counter may be spelled `for i in 1.. {` (rule R18 writes it out) or as an explicit `let mut n = 1; loop {`
+    with `n += 1` in the body. The contract is the same; only the name the loop invariant uses for the counter differs."""
+    import os
+    from vx import extract
+    try:
+        text = open(os.path.join(extract.REPO, SRC)).read()
+    except OSError:
+        return 'i__next', True
+    m = re.search(r'for (\w+) in \d+\.\. \{', text)
+    if m:
+        return m.group(1) + '__next', True
+    m = re.search(r'let mut (\w+)(?:: u32)? = \d+;\s*\n\s*loop \{', text)
+    if m:
+        return m.group(1), False
+    return 'i__next', True
+
+
 def unit():
+    ctr, for_spelling = _counter_spelling()
+    loop_inv = LOOP.replace('i__next', ctr)
+    r18 = [Rule('R18:range-from', r'for (\w+) in (\d+)\.\. \{', r'let mut \1__next: u32 = \2;\n        loop {\n            let \1 = \1__next; \1__next = range_from_step(\1__next);', 1, where='body',
+                why='definition of `for` over RangeFrom<u32> (the counter type is fixed by the policy closure\'s signature): `next()` yields the counter and advances it by one (prelude model range_from_step)')] if for_spelling else []
     return Unit('retry', prelude=['base.rs', 'time.rs', 'retry_models.rs'], rules=RULES, fx_type='RFx<Req, Resp>',
                 fx_fns=[r'self\.stub\.call\('], parts=[
         TypeItem(SRC, 'struct', 'Retry', attrs='#[verifier::reject_recursive_types(Req)] #[verifier::reject_recursive_types(Resp)]', rules=[
@@ -37,16 +59,14 @@ def unit():
         ]),
         Impl('impl<Req, Resp, F: Fn(&Result<Resp, RpcError>, u32) -> bool> Retry<F, Req, Resp>', qual='Retry', parts=[
             Fn(SRC, IMPL, 'call', fx=True, tags='C20', attrs='#[verifier::exec_allows_no_decreases_clause]',
-               rules=[
-                   Rule('R18:range-from', r'for (\w+) in (\d+)\.\. \{', r'let mut \1__next: u32 = \2;\n        loop {\n            let \1 = \1__next; \1__next = range_from_step(\1__next);', 1, where='body',
-                        why='definition of `for` over RangeFrom<u32> (the counter type is fixed by the policy closure\'s signature): `next()` yields the counter and advances it by one (prelude model range_from_step)'),
-                   Rule('R1:unreachable', r'^[ \t]*unreachable!\("[^"]*"\);\n', '', 1, where='body', flags=re.M,
+               rules=r18 + [
+                   Rule('R1:unreachable', r'^[ \t]*unreachable!\("[^"]*"\);\n', '', '*', where='body', flags=re.M,
                         why='dead code after a loop without `break`'),
                    Rule('R2b:param-rebind', r'request: Req', 'request0: Req', 1, where='sig',
                         why='the parameter is shadowed by `let request = Arc::new(request)`; it is written as a rebinding so that the contract can name the original'),
                ],
                pre='let request = request0;',
-               loops=[LOOP],
+               loops=[loop_inv],
                requires='forall|x: &Result<Resp, RpcError>, n: u32| call_requires(self.should_retry, (x, n)), // @core',
                ensures='''
                  // C20: at least one attempt; nothing else happens to the wrapped stub's history
